@@ -988,7 +988,13 @@ func genRepeat(r *rng, o progOpts) Step {
 		}
 		nd := r.between(0, 2)
 		for d := 0; d < nd; d++ {
-			a.Steps = append(a.Steps, Step{Op: "draw", GX: gxInt(r, gxOpts{small: r.chance(1, 2)}), Label: fmt.Sprintf("a%d_%d", i, d)})
+			g := gxInt(r, gxOpts{small: r.chance(1, 2)})
+			if r.chance(1, 3) {
+				// a draw that is often rejected inside the generator (retries, sometimes exhausted: the action
+				// then counts as skipped before / after drawing depending on its position)
+				g = filteredSmallInt(r)
+			}
+			a.Steps = append(a.Steps, Step{Op: "draw", GX: g, Label: fmt.Sprintf("a%d_%d", i, d)})
 		}
 		if nd > 0 && r.chance(1, 3) {
 			a.Steps = append(a.Steps, Step{Op: "skipif", Pred: hashPred(r, r.between(2, 6))}) // skip after drawing
@@ -1008,6 +1014,19 @@ func genRepeat(r *rng, o progOpts) Step {
 		}
 	}
 	return st
+}
+
+// filteredSmallInt: IntRange(0,9) filtered to a few values: find() often needs several tries and sometimes gives up.
+func filteredSmallInt(r *rng) *GX {
+	lo := r.between(5, 9)
+	desc := fmt.Sprintf("IntRange(0, 9).Filter(>=%d)", lo)
+	return &GX{Desc: desc, Gen: rapid.IntRange(0, 9).Filter(func(v int) bool { return v >= lo }).AsAny(), Cmp: true, Int: true, Rej: true,
+		Check: func(v any) string {
+			if x, ok := v.(int); !ok || x < lo || x > 9 {
+				return fmt.Sprintf("%s returned %v", desc, v)
+			}
+			return ""
+		}}
 }
 
 func (p *Prog) body() func(x *X) { return func(x *X) { x.exec(p.Steps) } }
